@@ -109,6 +109,7 @@ static void decode_spec(struct tape *t, struct gm_spec *g)
 	g->hb_scale = (uint8_t[]){1, 1, 20, 100, 1, 7}[t_choice(t, 6)];
 	g->chain_len = (uint8_t[]){0, 0, 12, 60, 200, 0, 30, 5}[t_choice(t, 8)];
 	g->chain_start = (uint8_t[]){0, 255, 60, 160}[t_choice(t, 4)];
+	g->relay_budget = (uint8_t[]){0, 0, 1, 3, 0, 2}[t_choice(t, 6)];
 	for(unsigned r = 0; r < g->n_rules; r++) {
 		struct gm_rule *ru = &g->rules[r];
 		ru->n_act = (uint8_t)(1 + t_choice(t, 4));
@@ -373,8 +374,8 @@ int rsv_case(const uint8_t *tape, size_t len, struct rsv_result *res)
 	res->cls[K_STOP_RUNS] = g->stop_lp >= 0;
 	res->cls[K_TT_RUNS] = c->termination_time != 0;
 
-	rsv_sample(res, "lps=%u seed=%llu time=%u la=%u zd=%u sp=%u dest=%u pl=%u rules=%u hb=%u chain=%u/%u post=%u goals=[", g->n_lps, (unsigned long long)g->seed,
-	    g->time_mode, g->lookahead_mode, g->zero_delay, g->send_prob, g->dest_mode, g->payload_mode, g->n_rules, g->hb_scale, g->chain_len, g->chain_start, g->post_goal);
+	rsv_sample(res, "lps=%u seed=%llu time=%u la=%u zd=%u sp=%u dest=%u pl=%u rules=%u hb=%u chain=%u/%u post=%u relay=%u goals=[", g->n_lps, (unsigned long long)g->seed,
+	    g->time_mode, g->lookahead_mode, g->zero_delay, g->send_prob, g->dest_mode, g->payload_mode, g->n_rules, g->hb_scale, g->chain_len, g->chain_start, g->post_goal, g->relay_budget);
 	for(unsigned i = 0; i < g->n_lps && i < 12; i++)
 		rsv_sample(res, "%s%u%s", i ? "," : "", g->goal[i], g->t0_zero[i] ? "@0" : "");
 	rsv_sample(res, "] stop=(%d,%u) | ranks=%u net=%u/%u/%u/%u | %s thr=%u ckpt=%u gvt=%u tt=%g bind=%d stats=%d seed=%llu | sched seed=%llu sw=%u burst=%u/%u hot=%#x div=%u batch=%u | ref ev=%zu",
